@@ -47,7 +47,7 @@ Definition corr_legacy (c : case) : bool := c_done c && obs_eqb (run_model (c_in
 
 Definition spec_in (i : run_in) (o : run_obs) : bool :=
   spec_ok (ri_enc i) (stream_bytes (ri_out i)) (stream_bytes (ri_err i)) (to_req (ri_hide i))
-          (ri_async i) (ri_out_given i) (ri_err_given i) (ri_pty i)
+          (ri_async i) (ri_out_given i) (ri_err_given i) (ri_pty i) (ri_out_mirror i) (ri_err_mirror i)
           (ro_stdout o) (ro_stderr o) (ro_out_stream o) (ro_err_stream o).
 
 Definition spec (c : case) : bool := c_done c && c_silent c && spec_in (c_in c) (c_obs c).
@@ -56,3 +56,7 @@ Definition spec (c : case) : bool := c_done c && c_silent c && spec_in (c_in c) 
 Record dcase := mkd { d_enc : enc; d_bytes : bytes; d_text : text }.
 Definition dcorr (c : dcase) : bool := text_eqb (decode_all (d_enc c) (d_bytes c)) (d_text c).
 Definition dspec (c : dcase) : bool := text_eqb (ref_decode (d_enc c) (d_bytes c)) (d_text c).
+
+(** Wrapper validation: [render] against a real io.TextIOWrapper(errors="backslashreplace"). *)
+Record wcase := mkw { w_enc : menc; w_text : text; w_shown : text }.
+Definition wcorr (c : wcase) : bool := text_eqb (render (w_enc c) (w_text c)) (w_shown c).
